@@ -30,6 +30,7 @@ import (
 	"google.golang.org/grpc/codes"
 	"google.golang.org/grpc/metadata"
 
+	"github.com/dadrus/heimdall/internal/handler/requestcontext"
 	"github.com/dadrus/heimdall/internal/heimdall"
 	"github.com/dadrus/heimdall/internal/rules/mechanisms/contenttype"
 	"github.com/dadrus/heimdall/internal/x"
@@ -83,6 +84,9 @@ func extractURL(req *envoy_auth.AttributeContext_HttpRequest) *url.URL {
 	if val := req.GetQuery(); len(val) != 0 {
 		query = val
 	}
+
+	// as the HTTP based services do: octets, which may not be part of a path, are encoded
+	rawPath = requestcontext.ReceivedPath(rawPath)
 
 	path, _ := url.PathUnescape(rawPath)
 
